@@ -529,6 +529,7 @@ class ModuleTemplate(Template):
         self.enable_loop = module._enable_loop
 
         self.module = module
+        self.module_directory = None
         self.filename = template_filename
         ModuleInfo(
             module,
